@@ -2,7 +2,7 @@ SPECIFICATION Spec
 CONSTANTS
   N = 2
   ScratchMax = 1
-  Overwrite = TRUE
+  Overwrite = FALSE
   ProbeAll = TRUE
   Fams = {"pad", "color"}
   Subs = TRUE
